@@ -253,7 +253,9 @@ def run_case(rs, ctx):
     # (d) other bandits are used *at the same time* from other threads of the caller (a server answering several models):
     # mirrors of the scenario (other seed, shifted data, identical call shapes) plus one unrelated bandit loop in their own
     # threads while the scenario is replayed; the interpreter hands the GIL over every microsecond
-    if (ctx.index // 48 + ctx.index) % 2 == 0 or p == "none":  # every case without neighbourhood policy (they are cheap)
+    # (not for the scenarios that train in worker *processes*: several caller threads submitting to joblib's one reusable process
+    # pool at the same time is joblib's own subject - it answers with RuntimeError now and then - and no state of a bandit)
+    if ((ctx.index // 48 + ctx.index) % 2 == 0 or p == "none") and cfg.get("n_jobs", 1) == 1:  # every case without neighbourhood policy (they are cheap)
         mirrors = []
         for k_ in range(2):
             mc = copy.deepcopy(cfg)
